@@ -1342,7 +1342,7 @@ def compare_node(model, nodeobs):
 _srv_counter = iter(range(1, 1 << 30))
 
 
-def make_server(paths, base, confdir=None, parsed=None):
+def make_server(paths, base, confdir=None, parsed=None, via=None):
     """the REAL `Server` object for a list of config files or config names (`Server.__init__`: `load_config` with
     `to_config_path`, node section, interface).  confdir: the configuration directories, in order; parsed: a list which
     gets the path of every file `process_file` is called for (recording only)"""
@@ -1356,6 +1356,30 @@ def make_server(paths, base, confdir=None, parsed=None):
     patch_version()
     if confdir is None:
         generalConfig.testinit(piddir=Path(base))
+    elif via == 'env':
+        # as the operator gives it: FRAPPY_CONFDIR=<dir>:<dir>:… (frappy/lib/__init__.py: GeneralConfig.init)
+        keys = ('FRAPPY_CONFDIR', 'FRAPPY_PIDDIR', 'FRAPPY_LOGDIR', 'FRAPPY_CONFIG_FILE')
+        saved = {k: os.environ.get(k) for k in keys}
+        os.environ.update(FRAPPY_CONFDIR=':'.join(str(d) for d in confdir), FRAPPY_PIDDIR=str(base), FRAPPY_LOGDIR=str(base))
+        os.environ.pop('FRAPPY_CONFIG_FILE', None)
+        try:
+            generalConfig.init()
+        finally:
+            for k, v in saved.items():
+                if v is None:
+                    os.environ.pop(k, None)
+                else:
+                    os.environ[k] = v
+    elif via == 'cfgfile':
+        # the [FRAPPY] section of a general configuration file: confdir = <dir>:<dir>:…
+        gc = os.path.join(base, 'generalConfig.cfg')
+        with open(gc, 'w', encoding='utf-8') as fh:
+            fh.write('[FRAPPY]\nlogdir = %s\npiddir = %s\nconfdir = %s\n' % (base, base, ':'.join(str(d) for d in confdir)))
+        saved = {k: os.environ.pop(k, None) for k in ('FRAPPY_CONFDIR', 'FRAPPY_PIDDIR', 'FRAPPY_LOGDIR')}
+        try:
+            generalConfig.init(gc)
+        finally:
+            os.environ.update({k: v for k, v in saved.items() if v is not None})
     else:
         generalConfig.testinit(piddir=Path(base), confdir=[Path(d) for d in confdir])
     old = {sig: signal.getsignal(sig) for sig in (signal.SIGINT, signal.SIGTERM)}     # Server installs its own handlers
@@ -1414,7 +1438,7 @@ def gen_lookup_case(rng):
             places.append([None, refs[[i for i, r in enumerate(refs) if 'path' in r][0]]['path']])
     order = list(range(ndirs))
     rng.shuffle(order)                              # the order of confdir is not the order of creation / of the names
-    return {'ndirs': ndirs, 'order': order, 'places': places, 'refs': refs}
+    return {'ndirs': ndirs, 'order': order, 'places': places, 'refs': refs, 'via': rng.choice(['testinit', 'env', 'cfgfile'])}
 
 
 def run_lookup_case(lc):
@@ -1445,7 +1469,7 @@ def run_lookup_case(lc):
         args = [os.path.join(base, r['path']) if 'path' in r else r['name'] for r in refs]
         parsed = []
         try:
-            srv = make_server(args, base, confdir=[os.path.join(base, d) for d in dirs], parsed=parsed)
+            srv = make_server(args, base, confdir=[os.path.join(base, d) for d in dirs], parsed=parsed, via=lc.get('via'))
             loaded = [split_path(p, base, lc['ndirs']) for p in parsed]
             cfg = srv.module_cfg
             content = []
@@ -2075,6 +2099,7 @@ def lookup_stream(ctx, res):
         res.evaluations += 1
         res.traces += 1
         res.count('lookup.dirs=%d' % lc['ndirs'])
+        res.count('lookup.confdir-given-by=' + lc.get('via', 'testinit'))
         res.count('lookup.files-of-a-name=%d' % min(4, max([0] + [sum(1 for d, fn in lc['places'] if d is not None and fn in
                                                                     [r['name'] + x for x in SUFFIXES]) for r in lc['refs'] if 'name' in r])))
         res.count('lookup.outcome=' + ('not-found' if lk['loaded'] is None else 'loaded'))
@@ -2288,7 +2313,7 @@ def run(ctx):
                 start = '' if mo['gen'] == 1 else ' at the SECOND start from the same loaded configuration'
                 res.violations.append({'sig': sig,
                                        'what': f'{sig}: module {mo["name"]} (class {mo["spec"]["id"]}){start}, cfg: {text} -> '
-                                               + (f'main unit {judge["mainunit"]!r} from the cfg, described with `$` left: '
+                                               + (f'main unit {judge["mainunit"]!r} (class or cfg; judged before shrinking), described with `$` left: '
                                                   f'{json.dumps(unresolved_units(obs))[:400]} ' if sig == 'C10:main-unit-not-applied' else '') +
                                                f'registered={obs["registered"]} errors={obs["errors"]} '
                                                f'modprops={obs["modprops"]} judge={judge}',
